@@ -13,7 +13,7 @@ def _run_task(task):
         kind = task["kind"]
         if kind == "func":
             from pyvc.source import Program
-            from pyvc.ext_algos import AlgoExecutor as Executor
+            from pyvc.ext_frames import FrameExecutor as Executor
             from contracts.schema import core_schema
             from contracts import registry
 
